@@ -1,8 +1,8 @@
 """Which suites, theorems and extracted data decide which property."""
-from . import dhcpwire, pool, dhcp, acl, dnsrate, dnscache, dnsroute, dnswire, leasedb, radv, dhcpcfg, hostile, config
+from . import dhcpwire, pool, dhcp, acl, dnsrate, dnscache, dnsroute, dnswire, leasedb, radv, dhcpcfg, hostile, config, e2e
 
 SUITES = {}
-for cls in [dhcpwire.DhcpRoundTrip, dhcpwire.DhcpParse, dhcpwire.Frame, dhcpwire.BroadcastFlag, pool.PoolHistory, dhcp.DhcpHistory, acl.AclSuite, acl.LeaseJson, dnsrate.BucketSuite, dnsrate.RateLimitSuite, dnscache.CacheSuite, dnsroute.RouteSuite, dnswire.DnsEnc, dnswire.DnsDec, dnswire.InReply, leasedb.LeaseDb, radv.RaSuite, dhcpcfg.DhcpCfg, hostile.Icmp6, hostile.Lldp, hostile.DhcpAcc, hostile.ToArr, hostile.EdnsAcc, hostile.DnsSafe, hostile.DhcpSafe, config.CfgField, config.CfgLoad]:
+for cls in [dhcpwire.DhcpRoundTrip, dhcpwire.DhcpParse, dhcpwire.Frame, dhcpwire.BroadcastFlag, pool.PoolHistory, dhcp.DhcpHistory, acl.AclSuite, acl.LeaseJson, dnsrate.BucketSuite, dnsrate.RateLimitSuite, dnscache.CacheSuite, dnsroute.RouteSuite, dnswire.DnsEnc, dnswire.DnsDec, dnswire.InReply, leasedb.LeaseDb, radv.RaSuite, dhcpcfg.DhcpCfg, hostile.Icmp6, hostile.Lldp, hostile.DhcpAcc, hostile.ToArr, hostile.EdnsAcc, hostile.DnsSafe, hostile.DhcpSafe, config.CfgField, config.CfgLoad, e2e.E2E]:
     SUITES[cls.name] = cls()
 
 TRUSTED_BASE = [
@@ -137,7 +137,7 @@ PROPS = {
         trusted=["Vec/LinkedList as lists; the suffix tree is modelled node for node"],
     ),
     "C04": dict(
-        suites=[("dnsenc", 2500, 60000), ("dnsdec", 1000, 20000)],
+        suites=[("dnsenc", 2500, 60000), ("dnsdec", 1000, 20000), ("e2e", 24, 600)],
         extracted=["dns.spliceRanges", "dns.transportLimits", "dns.prepareFloor"],
         rule=DNS_RULE, assumptions=["which limit each transport passes is tied by extraction of the call sites in run_udp / run_tcp (they need sockets to run)"],
         trusted=[],
@@ -216,6 +216,22 @@ PROPS = {
         assumptions=["where several matched subnets (an `addresses` prefix and a nested match-subnet) differ the manual does not say whose netmask/broadcast is the default; the specification fixes the choice the code makes (innermost within a chain, the `addresses` prefix before configured policies)",
                      "a key listed twice in one policy cannot occur (YAML hash): the specification takes the later listing"],
         trusted=DHCP_TRUST,
+    ),
+    "C07": dict(
+        suites=[("e2e", 72, 1400)],
+        extracted=["net.inAddrFromNeBytes", "net.replySourceFromSendFrom", "dns.muxFreshId", "dns.muxRestoresCallerId", "dns.muxSendIgnoresGoneWaiter",
+                   "dns.retryLimit", "dns.MIN_DNS_TIMEOUT", "dns.MAX_DNS_TIMEOUT"],
+        rule="the real DnsService (UDP and TCP listeners on 127.0.0.1, [::1] and a dual-stack [::] socket; ACL, rate limiter, router, cache, "
+             "out-query) in-process on loopback in a private network namespace, against a scripted upstream (UDP and TCP on 127.0.0.77:53): "
+             "batches of 24..256 queries sent at once, each from its own socket, over every listener family and both transports, whose "
+             "upstream replies are immediate, delayed 5..400 ms (so reordered among the batch), duplicated, carry a wrong id or the TC "
+             "bit on UDP (retry over the shared TCP connection), are 60-record answers (size limits), or have their first 1..3 UDP "
+             "transmissions dropped, or all of them (silent upstream); per query the number of replies, their source address, id, question, "
+             "answer (a hash of the question), rcode, size, TC bit and latency are observed; non-trivial = every batch",
+        assumptions=["tokio's scheduler, the kernel's UDP/TCP and the loopback device are exercised, not modelled: schedules are sampled by the rig, while the multiplexer, "
+                     "the retransmission schedule and the source-address image are proved for all schedules",
+                     "at most 65535 queries in flight on one upstream TCP connection"],
+        trusted=["the scripted upstream and the clients of the rig (harness/src/e2e.rs)"],
     ),
     "C17": dict(
         suites=[("ra", 2500, 60000)],
